@@ -144,7 +144,9 @@ def run_case(case):
         if case.get('cross'):
             out['features'].append('cross-volume')
     sc = inject.Scenario(case, name, args, stdin=stdin, cwd=cwd,
-                         plan={'random_seed': case.get('seed', 1)})
+                         plan={'random_seed': case.get('seed', 1),
+                               # device numbers differ between the volumes
+                               'vdev': cmd == 'restore'})
     w, ref, s0, s1 = sc.execute()
     try:
         if ref.timeout or ref.audit_ok() is False:
@@ -224,6 +226,42 @@ def run_case(case):
                          dest=snap.fmt_diff(snap.sig_diff(pay0, snap.subtree(n1, e['loc'])), 4))
         # (3) re-run to completion
         if cmd == 'restore':
+            # (3a) the recovery a user performs after an interrupted restore:
+            # trash-restore again, this time with --overwrite, taking
+            # everything that is still listed.  A payload must not lose its
+            # .trashinfo to it and the entry must stay complete somewhere
+            # (a move that left two names of one inode behind turns the
+            # rename of the re-run into a no-op that still drops the info)
+            ow = args if '--overwrite' in args else args + ['--overwrite']
+            rl = run.run(wk, 'restore', ow, stdin=b'', cwd=wk.R)
+            nl = len(trashio.parse_restore_listing(rl.outtext()))
+            if nl:
+                r3 = run.run(wk, 'restore', ow, cwd=wk.R,
+                             stdin=('0-%d\n' % (nl - 1)).encode())
+                n3 = putcheck.norm_sig(wk.snapshot())
+                obs['recovery_reruns_with_overwrite'] = \
+                    obs.get('recovery_reruns_with_overwrite', 0) + 1
+                for e in ents:
+                    ik, pk = trashworld.pair_keys(e)
+                    if pk in n3 and ik not in n3:
+                        viol('payload-stranded-without-info/restore-rerun-overwrite',
+                             entry=e, rerun=r3.brief())
+                    if e.get('no_payload'):
+                        continue
+                    pay0 = snap.subtree(n0, pk)
+                    d3 = snap.subtree(n3, e['loc'])
+                    # (complete at its place before the re-run, and the
+                    # re-run only moved the rest of a half-deleted payload
+                    # inside it: still complete there)
+                    kept = same_payload(snap.subtree(n1, e['loc']), pay0) and \
+                        all(k in d3 and (k == '' or same_payload({'': d3[k]}, {'': v}))
+                            for k, v in pay0.items())
+                    if not (kept or snap.subtree(n3, pk) == pay0 or
+                            same_payload(d3, pay0) or
+                            same_payload(snap.subtree(n3, e['loc'] + '/' + e['name']), pay0)):
+                        viol('restored-entry-complete-nowhere/restore-rerun-overwrite',
+                             entry=e, rerun=r3.brief(),
+                             dest=snap.fmt_diff(snap.sig_diff(pay0, snap.subtree(n3, e['loc'])), 4))
             r2 = run.run(wk, 'empty', list(case.get('vopt') or []), stdin=b'',
                          env={'TRASH_DATE': '2099-01-01T00:00:00'})
             a2 = wk.snapshot()
